@@ -32,7 +32,7 @@ from asynq.batching import BatchBase, BatchCancelledError, BatchingError, BatchI
 
 
 class VErr(Exception):
-    __bool__ = lambda self: False       # unusual but legal: a falsy exception object
+    __bool__ = lambda self: sum(map(ord, str(self.args))) % 2 == 0       # unusual but legal: about half of the exception objects are falsy
 
     def __init__(self, code):
         Exception.__init__(self, code)
